@@ -367,8 +367,10 @@ pub fn check_model(env: &Env, pre: &str, shrink: bool, o: &Obs, off: Option<&Obs
         let mut bad_exact = 0;
         let mut bad_ref = 0;
         let mut detail = String::new();
+        let decs: Vec<f64> = o.dec_train.iter().chain(o.dec_probe.iter()).cloned().collect();
         for (idx, ((&lab, &sg), (&s, &mag))) in labs.zip(signs).zip(refs).enumerate() {
-            if lab != sg {
+            // a decision value of exactly zero has no sign: either label is accepted
+            if lab != sg && decs[idx] != 0.0 {
                 bad_exact += 1;
                 if detail.is_empty() {
                     detail = format!("point {}: predict = {} but weighted_sum - rho >= 0 is {}", idx, lab, sg);
